@@ -10,7 +10,7 @@ use crate::harness::{chunk_removals, guarded, panic_class, Layer, Outcome, Stats
 use crate::json::{obj, J};
 use crate::model;
 use crate::rng::{Digest, Rng};
-use rustpython_parser_core::source_code::{LinearLocator, LocatedError, RandomLocator, SourceLocation};
+use rustpython_parser_core::source_code::{LinearLocator, LocatedError, RandomLocator, SourceLocation, SourceRange};
 use rustpython_parser_core::text_size::TextSize;
 use rustpython_parser_core::BaseError;
 
@@ -93,7 +93,67 @@ const PYLINES: &[&str] = &[
     "y = {**a, 'k': v}",
 ];
 
+/// Rare size classes: a very long line, very many lines, a text beyond 2^16 bytes — the places
+/// where a narrow integer, a threshold or a chunked scan would show.
+fn gen_big_text(r: &mut Rng) -> String {
+    let mut text = String::new();
+    if r.chance(1, 5) {
+        text.push('\u{feff}');
+    }
+    let eols = ["\n", "\r\n", "\r"];
+    match r.below(4) {
+        0 => {
+            // one very long line (300..3000 columns) between two short ones
+            text.push_str("a = 1");
+            text.push_str(eols[r.below(3) as usize]);
+            let unit = *r.pick(&["x", "ab ", "é", "xy→", "0123456789"]);
+            for _ in 0..r.range(300, 3000) {
+                text.push_str(unit);
+            }
+            text.push_str(eols[r.below(3) as usize]);
+            text.push_str("b = é");
+        }
+        1 => {
+            // very many short lines (300..1500), every now and then a non-ASCII one
+            let e = r.below(4);
+            for i in 0..r.range(300, 1500) {
+                text.push_str(if i % 97 == 13 { "é = 1" } else if i % 5 == 0 { "" } else { "x" });
+                text.push_str(eols[if e < 3 { e as usize } else { (i % 3) as usize }]);
+            }
+        }
+        2 => {
+            // beyond 2^16 bytes in total, with rows beyond 2^8 and one line beyond 2^16 columns
+            for i in 0..300u32 {
+                text.push_str(if i == 270 { "ü" } else { "y" });
+                text.push_str(eols[(i % 3) as usize]);
+            }
+            for _ in 0..66_000 {
+                text.push('z');
+            }
+            text.push_str("é\n");
+            text.push_str("tail");
+        }
+        _ => {
+            // power-of-two boundaries: lines of exactly 127/128/255/256 bytes
+            for n in [127usize, 128, 255, 256, 129, 257] {
+                for _ in 0..n - 1 {
+                    text.push('q');
+                }
+                text.push_str(if r.chance(1, 3) { "\r\n" } else { "\n" });
+            }
+        }
+    }
+    text
+}
+
+pub fn gen_big_text_pub(r: &mut Rng) -> String {
+    gen_big_text(r)
+}
+
 pub fn gen_text(r: &mut Rng, scale: u32) -> String {
+    if r.chance(1, 4000) {
+        return gen_big_text(r);
+    }
     let style = r.below(100);
     let mut text = String::new();
     if style < 25 {
@@ -409,6 +469,39 @@ pub fn execute(case: &Case, stats: &mut Stats) -> Outcome {
                 };
                 if op.k == K::LocateError {
                     stats.bump(C::probe_error_path as usize);
+                    // the small conversions around a located error / a located range
+                    let conv = guarded(|| {
+                        let e1: LocatedError<String> = LocatedError { error: "x".to_string(), location: Some(rgot), source_path: "p".into() };
+                        let e2: LocatedError<std::borrow::Cow<'static, str>> = LocatedError::from(LocatedError { error: "x", location: Some(rgot), source_path: "p".to_string() });
+                        let e3: LocatedError<String> = LocatedError { error: "x", location: Some(rgot), source_path: "p".to_string() }.into();
+                        let sr = SourceRange::new(lgot, rgot);
+                        let sr2: SourceRange = (lgot..rgot).into();
+                        (
+                            e1.python_location(),
+                            e2.location.map(loc_tuple),
+                            e3.location.map(loc_tuple),
+                            e3.error(),
+                            loc_tuple(sr.start),
+                            loc_tuple(sr.unwrap_end()),
+                            loc_tuple(sr2.start),
+                            sr2.end.map(loc_tuple),
+                            LocatedError { error: 1u8, location: None, source_path: String::new() }.python_location(),
+                        )
+                    });
+                    match conv {
+                        Ok(c) => {
+                            let r = loc_tuple(rgot);
+                            let l = loc_tuple(lgot);
+                            if c != ((r.0 as usize, r.1 as usize), Some(r), Some(r), "x".to_string(), l, r, l, Some(r), (0, 0)) {
+                                violation = Some(fail(class_of("error-conversion"), format!("LocatedError/SourceRange conversions: {:?}", c)));
+                                break 'ops;
+                            }
+                        }
+                        Err(p) => {
+                            violation = Some(fail(class_of(&format!("panic:{}", panic_class(&p))), p));
+                            break 'ops;
+                        }
+                    }
                     let ok = |e: &Option<LocatedError<String>>| {
                         e.as_ref().is_some_and(|e| {
                             e.error == "boom"
@@ -585,6 +678,9 @@ impl Layer for CursorLayer {
     }
     fn counter_names(&self) -> &'static [&'static str] {
         COUNTER_NAMES
+    }
+    fn chunk_runs(&self) -> u64 {
+        16384
     }
     fn required_probes(&self, config: u64) -> Vec<usize> {
         let mut v = vec![
